@@ -193,11 +193,12 @@ func main() {
 		}
 	}
 	addSessionScenarios(r, &scs)
+	addServerStop(r, &scs)
 	sum := mcx.Explore(r, scs, mcx.Config{Wall: ev.Pick(r, 4*time.Minute, 30*time.Minute)})
 	// deadlock findings are renamed per scenario by the checker only when the checker runs; the engine-level
 	// deadlock signature already names the blocked thread and its operation
 	mcx.Report(r, scs, sum)
-	r.Set("rule", "scenario = blocking operation (Do CON / Do NON / 3-block upload / Observe / Observation.Cancel / Ping / one-way WriteMessage / request queued behind the parallel-request limiter) x interruption (context cancel, virtual deadline, local Close twice) x peer behaviour (silent, acknowledges without answering, garbage datagrams); the interrupting thread is a separate application thread, so the preemption-bounded search places the interruption at every scheduling point of the operation; oracle: the scheduler's deadlock detection (an application thread parked when nothing is enabled), Done() closed and on-close callbacks run exactly once after Close; distinct outcome = distinct return value of the operation")
+	r.Set("rule", "scenario = blocking operation (Do CON / Do NON / 3-block upload / Observe / Observation.Cancel / Ping / one-way WriteMessage / request queued behind the parallel-request limiter) x interruption (context cancel, virtual deadline, local Close twice) x peer behaviour (silent, acknowledges without answering, garbage datagrams); the interrupting thread is a separate application thread, so the preemption-bounded search places the interruption at every scheduling point of the operation; oracle: the scheduler's deadlock detection (an application thread parked when nothing is enabled), Done() closed and on-close callbacks run exactly once after Close; distinct outcome = distinct return value of the operation; session families: real tcp and udp sessions (Run loop, two concurrent Close, peer close/error, blocked writes, Close while the receive queue is full and the handler busy); server families: udp/tcp/dtls server Stop from two goroutines with a handler in flight and a server-initiated request waiting (Serve returns, every Done closes, on-close callbacks once, the request returns)")
 	r.Sample(map[string]any{"scenario": scs[0].Name})
 	r.Assume("a socket write completes (the in-memory session never blocks a write)", "configurations in which the library owns the socket/session (Dial-like, accepted connections)", "deadlines are virtual: the interrupting thread advances the virtual clock past the context deadline")
 	r.Finish()
